@@ -6,7 +6,7 @@ cd "$(dirname "$0")"
 export GOFLAGS=-mod=mod GOPROXY=off GOSUMDB=off GOTOOLCHAIN=local
 mkdir -p work replays evidence
 (cd translator && go build -o bin/translator . && ./bin/translator -repo "${VERIF_REPO:-/repo}" -out ../lean/Shentu/Gen)
-(cd lean && lake build Shentu Drivers chaindriver)
+(cd lean && lake build Shentu chaindriver vmdriver)
 cp "${VERIF_REPO:-/repo}/go.sum" harness/go.sum
-(cd harness && go build -tags verif -o bin/chainrun ./cmd/chainrun)
+(cd harness && go build -tags verif -o bin/chainrun ./cmd/chainrun && go build -tags verif -o bin/vmrun ./cmd/vmrun)
 echo setup done
